@@ -23,8 +23,16 @@ def path_facts(ip, g0=0, d0=0):
     return facts
 
 
+def _conjuncts(c):
+    t = c.key()
+    if t[0] == 'and':
+        return _conjuncts(P.Cond(t[1])) + _conjuncts(P.Cond(t[2]))
+    return [c]
+
+
 def has_fact(facts, want):
-    return any(f.same(want) for f in facts)
+    """`want` is established when it is one of the facts or a conjunct of one (assert A and B establishes A and B)"""
+    return any(g.same(want) for f in facts for g in _conjuncts(f))
 
 
 def _allclose_ok(ip, a, b):
@@ -181,6 +189,16 @@ def _rule_fromfile(ctx, rule, second):
                               'np.loadtxt(..., ndmin=%s): a one-column file holding a single number becomes a length-1 array; '
                               'PairTable.exportToMatrixArray only compares the table entries with each other, so it is accepted '
                               'and numpy broadcasts it over the whole Fourier grid instead of rejecting the wrong length' % nd, m.loc())
+            drop = {k2: v2 for k2, v2 in kw.items() if k2 in ('max_rows', 'skiprows') and v2 not in (None, 0)}
+            for k2 in drop:
+                kw.pop(k2)
+            for k2 in ('max_rows', 'skiprows'):
+                kw.pop(k2, None)           # explicitly the default
+            if drop:
+                ctx.violation(rule, FF + '.calculate', 'loadtxt-drops-rows' + ksfx,
+                              'np.loadtxt(..., %s): part of the file is discarded before its length and k column are compared with '
+                              'the grid, so a table that was written for another (longer) domain passes the guards and is used as if it '
+                              'matched' % ', '.join('%s=%s' % kv for kv in sorted(drop.items())), m.loc())
             elif kw:
                 ctx.undecided(rule, FF + '.calculate', 'np.loadtxt is called with layout-changing options %s' % sorted(kw), m.loc())
     for d, ip, r in worlds:
